@@ -15,7 +15,7 @@ RULE = (
     "parallel planes), polygon-polyhedron (a face, face shifted/scaled in its plane, sections larger/smaller/"
     "partially overlapping the true section, touching a vertex/edge, inside, free) and polyhedron-polyhedron "
     "(equal, translated by a vertex difference or a fraction of it, glued on a whole/partial face, sharing an "
-    "edge or a vertex, nested, independent), each stratum also with both operands mapped by the same rational "
+    "edge or a vertex, nested, inscribed (spanned by vertex / edge / face points of the other body, touching its boundary from inside), independent; one body in fifteen is a small hash-collision body with vertices at -1 / -2), each stratum also with both operands mapped by the same rational "
     "rotation (integer quaternions; the library receives the float roundings, the oracle the exact rationals). "
     "Both argument orders and the method form are compared with the exact vertex enumeration of the combined "
     "H-representations: kind by dimension, vertex set within 1e-7, V-E+F=2 and exact face/edge counts for "
